@@ -98,3 +98,94 @@ def c03(tier):
                              extra_cov={'residue_sweep': 'all 512 residues of (parameter-section length mod 512) enumerated x %d object shape(s)' % (3 if tier == 'thorough' else 1)})
     finally:
         shutil.rmtree(d, ignore_errors=True)
+
+def c12_cases(tier):
+    """Enumerations: all 256 byte values, all 65536 int16 values, boundary-dense (thorough: exhaustive for three) header words,
+    float patterns sign x exponent x mantissa class in parameters, point/analog data and event times."""
+    import os, random
+    d = os.path.join(V.WORK, 'c12-enum-%d' % os.getpid())
+    os.makedirs(d, exist_ok=True)
+    paths = []
+    def emit(name, body):
+        p = os.path.join(d, name + '.case')
+        with open(p, 'w') as f:
+            f.write('property: C12\n' + body + 'load\n')
+        paths.append(p)
+    base = 'flayout 0 2 0 0 0 0\nfids 0 1 3\n'
+    emit('byte-all', base + 'fshape 2 1 2 2 1 7 0 0 5\nfenumbyte\n')
+    for blk in range(4):
+        emit('int-%d' % blk, base + 'fshape 1 0 1 1 1 7 0 0 5\nfenumint %d\n' % blk)
+    # floats: 2 x 256 x 7 = 3584 patterns
+    emit('float-param', base + 'fshape 1 0 1 1 1 7 0 0 5\nfenumflt 0\n')
+    emit('float-points', base + 'fshape 16 0 1 56 1 7 0 0 5\nfdataenum 0\n')          # 16 x 4 x 56 = 3584 point floats
+    emit('float-analogs', base + 'fshape 0 16 4 56 1 7 0 0 5\nfdataenum 0\n')        # 16 x 4 x 56 = 3584 analog floats
+    emit('float-mixed', base + 'fshape 8 8 4 56 1 7 0 0 5\nfdataenum 0\n')
+    for st in range(0, 3584, 18):
+        emit('float-events-%d' % st, base + 'fshape 1 0 1 1 1 7 0 0 5\nfevtenum %d\n' % st)
+    # header words: fhdr <gap> <keyLabelPresent> <firstBlockKeyLabel> <fourChar> <nEvents> <evseed> <rawdisp>
+    bd = [0, 1, 2, 127, 128, 255, 256, 257, 32766, 32767, 32768, 32769, 65534, 65535, 12345]
+    rnd = random.Random(V.seed())
+    extra = 200 if tier == 'quick' else 2000
+    vals = bd + [rnd.randrange(65536) for _ in range(extra)]
+    shape1 = 'fshape 1 0 1 1 1 7 0 0 5\n'
+    for w in range(4):
+        space = range(65536) if (tier == 'thorough' and w < 3) else vals
+        for v in space:
+            a = [10, 0, 0, 12345]
+            a[w] = v
+            emit('hdr-w%d-%d' % (w, v), base + shape1 + 'fhdr %d %d %d %d 0 0 0\n' % tuple(a))
+    for v in sorted(set([1, 2, 127, 128, 255, 256, 257, 32766, 32767, 32768, 32769, 65534, 65535] + [rnd.randrange(1, 65536) for _ in range(extra)])):
+        emit('first-%d' % v, base + 'fshape 1 0 1 1 %d 7 0 0 5\n' % v)
+    for n in range(19):
+        emit('nevents-%d' % n, base + shape1 + 'fhdr 10 0 0 12345 %d %d 0\n' % (n, 100 + n))
+    for k in range(20 if tier == 'quick' else 300):
+        emit('evdisp-%d' % k, base + shape1 + 'fhdr 10 0 0 12345 18 %d %d\n' % (k + 1, 1000 + k))
+    return d, paths
+
+@reg('C12')
+def c12(tier):
+    import shutil
+    d, paths = c12_cases(tier)
+    try:
+        return V.generic_pbt('C12', tier, n_quick=1500, n_thorough=40000, floor=200, assumptions=FILE_ASSUME, extra_cases=paths,
+                             extra_cov={'exhaustive': True,
+                                        'exhaustive_note': 'all 2^8 byte values and all 2^16 int16 values in parameters, 2 x 256 x 7 float patterns (sign x exponent x mantissa class) in float parameters, point coordinates+residuals, analog samples and event times are enumerated completely; header words are boundary-dense (quick) / exhaustive for gap, key-label and first-key-block words (thorough); the rapidcheck part adds random files with raw 32-bit float patterns',
+                                        'enumerated_cases': len(paths)})
+    finally:
+        shutil.rmtree(d, ignore_errors=True)
+
+C16_BASES = [
+    'flayout 0 2 0 1 0 0\nfshape 2 1 2 2 1 7 0 0 5\nfhdr 10 0 0 12345 2 9 0\nfids 0 1 3\nfgroup 5 1 3 0\nfparam 2 1 3 2 2 3 0 0 0 0 0 41 5 1\nfparam 2 2 0 2 4 2 0 0 0 0 0 42 0 0\nforder 1 0\n',
+    'flayout 512 3 1 0 7 0\nfshape 1 0 1 1 5 3 -1 0 6\nfhdr 3 0 0 12345 0 0 0\nfids 4 9 0\nfparam 0 3 1 1 5 0 0 0 0 0 0 43 130 0\nforder 7 1\n',
+    'flayout 0 2 0 0 0 1\nfshape 3 0 1 2 1 9 1 0 7\nfhdr 10 0 0 12345 0 0 0\nfids 0 1 3\nfparam 0 4 2 3 2 2 2 0 0 0 0 44 0 1\nfparam 0 5 0 0 0 0 0 0 0 0 0 45 0 0\nforder 3 2\n',
+]
+
+def c16_sweep_cases(tier):
+    """Exhaustive small mutations of well-formed base files: every truncation length and every offset x {0,1,0x7F,0x80,0xFF}."""
+    import os
+    d = os.path.join(V.WORK, 'c16-sweep-%d' % os.getpid())
+    os.makedirs(d, exist_ok=True)
+    paths = []
+    bases = C16_BASES if tier == 'thorough' else C16_BASES[:2]
+    step = 48
+    for bi, b in enumerate(bases):
+        size = 3200          # upper bound; sweeps clip at the real file size
+        for a in range(0, size, step):
+            for kind in ('sweeptrunc', 'sweeppoke'):
+                p = os.path.join(d, 'b%d-%s-%05d.case' % (bi, kind, a))
+                with open(p, 'w') as f:
+                    f.write('property: C16\n' + b + '%s %d %d\n' % (kind, a, a + step))
+                paths.append(p)
+    return d, paths
+
+@reg('C16')
+def c16(tier):
+    import shutil
+    d, paths = c16_sweep_cases(tier)
+    try:
+        return V.generic_pbt('C16', tier, n_quick=12000, n_thorough=400000, floor=500, extra_cases=paths,
+                             assumptions=['work bound: at most 64 x file size + 2^20 read calls (hook H1, deterministic, no wall clock); single allocations above 1 GiB abort under ASan',
+                                          'inputs whose header/parameters declare frame data far beyond the file size (known finding KF-D17) are recognised through hook H2, skipped and counted'],
+                             extra_cov={'sweep_cases': len(paths), 'sweep': 'every truncation length and every offset x {0,1,0x7F,0x80,0xFF} of %d base files' % (3 if tier == 'thorough' else 2)})
+    finally:
+        shutil.rmtree(d, ignore_errors=True)
